@@ -28,6 +28,9 @@ def run(ctx):
     for gi, (kind, nkeys, sz) in enumerate((k, n, s) for k in ("Bucket", "Set", "BTree", "TreeSet") for n in (0, 1, 2, 4, 8, 16, 64) for s in ((2, 2), (4, 4))):
         for fn in (fams[gi % len(fams)], "OO" if kind in ("Bucket", "BTree") else "OI"):
             grid.append((fn, kind, nkeys, sz, "insert"))
+    # ... and __setstate__ of every kind on empty / small / full containers with a smaller and a larger new state
+    for gi, (kind, nkeys, newn) in enumerate((k, n, m) for k in ("Bucket", "Set", "BTree", "TreeSet") for n in (0, 3, 16) for m in (5, 40)):
+        grid.append((fams[gi % len(fams)], kind, nkeys, (4, 4), ("setstate", newn)))
     for it in range(len(grid) + ctx.n(60, 1200)):
         fn = rng.choice(fams)
         kind = rng.choice(["Bucket", "Set", "BTree", "TreeSet", "BTree"])
@@ -37,13 +40,16 @@ def run(ctx):
         if it < len(grid):
             fn, kind, nkeys, (ml, mi), forced = grid[it]
         keys = [2 * i for i in range(nkeys)]
+        forced_n = None
+        if isinstance(forced, tuple):
+            forced, forced_n = forced
         opname = forced or rng.choice(["insert", "insert", "update", "setstate", "union", "intersection", "difference", "multiunion", "merge", "pickle", "fromBytes"])
         if opname == "insert":
             op = ["insert", rng.choice([1, 2 * nkeys + 1, nkeys | 1])]
         elif opname == "update":
             op = ["update", [2 * nkeys + 1 + 2 * j for j in range(rng.choice([1, 5, 20]))]]
         elif opname == "setstate":
-            op = ["setstate", [3 * j for j in range(rng.choice([1, 5, 40]))]]
+            op = ["setstate", [3 * j for j in range(forced_n or rng.choice([1, 5, 40]))]]
         elif opname in ("union", "intersection", "difference"):
             op = [opname, [3 * j for j in range(rng.choice([1, 6, 30]))]]
         elif opname == "multiunion":
